@@ -114,6 +114,12 @@ public:
 			EVENTPP_VERIF_POINT("q.dqn.after-dec");
 
 			if(queue->doCanNotifyQueueAvailable() && ! queue->emptyQueue()) {
+				// The counter is changed without holding queueListMutex. A thread in wait/waitFor may have
+				// checked the counter just before the change and not be blocked yet, then it would miss the
+				// notification. Acquiring the mutex here ensures such a thread is blocked before notifying.
+				{
+					std::lock_guard<Mutex> queueListLock(queue->queueListMutex);
+				}
 				queue->queueListConditionVariable.notify_one();
 			}
 		}
